@@ -13,7 +13,7 @@
       shell, as they do in the Rust code (which mutates the shell in place).
     - Array elements: the index expression is evaluated (for its effects and errors) and then
       the model stops with [EArray]: element storage is outside this model. *)
-From BV Require Import Base.Prelude Base.Wrap64 Arith.Ast.
+From BV Require Import Base.Prelude Arith.Wrap64 Arith.Ast.
 
 Inductive err :=
   | EDivZero          (* EvalError::DivideByZero *)
